@@ -89,6 +89,8 @@ pub struct Profile {
     pub p_dep: (u32, u32),
     /// chance that a task client uses a blocking-with-timeout call
     pub p_task_block: (u32, u32),
+    /// maximum number of sequential peer sends inside one hook / handler
+    pub max_peer_sends: u32,
 }
 
 impl Profile {
@@ -150,6 +152,7 @@ impl Profile {
             w_block: [1, 0, 0],
             p_dep: (0, 1),
             p_task_block: (0, 1),
+            max_peer_sends: 1,
         }
     }
 }
@@ -257,35 +260,41 @@ impl<'a> Gen<'a> {
             let us = self.ch.range(0, self.p.spin_us);
             v.push(Step::Spin(us));
         }
-        if self.p.peer != Peer::None && depth < self.p.peer_depth && self.ch.chance(p_peer.0, p_peer.1) {
-            let tgt = match self.p.peer {
-                Peer::Dag => {
-                    if owner + 1 < self.n_actors {
-                        Some(self.ch.range(owner as u32 + 1, self.n_actors as u32 - 1) as usize)
-                    } else {
-                        None
+        for round in 0..self.p.max_peer_sends {
+            // further sequential sends become less likely
+            if round > 0 && !self.ch.chance(1, 2) {
+                break;
+            }
+            if self.p.peer != Peer::None && depth < self.p.peer_depth && self.ch.chance(p_peer.0, p_peer.1) {
+                let tgt = match self.p.peer {
+                    Peer::Dag => {
+                        if owner + 1 < self.n_actors {
+                            Some(self.ch.range(owner as u32 + 1, self.n_actors as u32 - 1) as usize)
+                        } else {
+                            None
+                        }
                     }
-                }
-                Peer::Any => Some(self.ch.below(self.n_actors as u32) as usize),
-                Peer::Others => {
-                    if self.n_actors < 2 {
-                        Some(owner)
-                    } else {
-                        let k = self.ch.below(self.n_actors as u32 - 1) as usize;
-                        Some(if k >= owner { k + 1 } else { k })
+                    Peer::Any => Some(self.ch.below(self.n_actors as u32) as usize),
+                    Peer::Others => {
+                        if self.n_actors < 2 {
+                            Some(owner)
+                        } else {
+                            let k = self.ch.below(self.n_actors as u32 - 1) as usize;
+                            Some(if k >= owner { k + 1 } else { k })
+                        }
                     }
-                }
-                Peer::None => None,
-            };
-            if let Some(to) = tgt {
-                let how = self.peer_how();
-                let msg = self.msg(to, depth + 1, false);
-                let erased = self.ch.chance(1, 4);
-                v.push(Step::Send { to, how, msg: Box::new(msg), erased });
-                if self.ch.chance(1, 3) {
-                    let d = even(self.ch, max_sleep);
-                    if d > 0 {
-                        v.push(Step::Sleep(d));
+                    Peer::None => None,
+                };
+                if let Some(to) = tgt {
+                    let how = self.peer_how();
+                    let msg = self.msg(to, depth + 1, false);
+                    let erased = self.ch.chance(1, 4);
+                    v.push(Step::Send { to, how, msg: Box::new(msg), erased });
+                    if self.ch.chance(1, 3) {
+                        let d = even(self.ch, max_sleep);
+                        if d > 0 {
+                            v.push(Step::Sleep(d));
+                        }
                     }
                 }
             }
